@@ -102,7 +102,11 @@ CLAIMS = {
                      "excluded and the whole log is 'done': C04_html_tokenizer_total_no_pauses); sites 99 (fall-through), 1 "
                      "(process_char_ref), 3, 5 and 98/97 never occur - through the invariant 'the state is well-kinded and "
                      "process_char_ref has an arm while a reference is pending' and the decidable conditions state_ok / noeofb on the "
-                     "regenerated table. Not covered: the xml table (its eat/discard differ), the default mode with bulk reads over "
+                     "regenerated table. The XML tokenizer interpreter terminates with the same bound (TokIR/TermX.v: the flavour-specific "
+                     "lemmas re-proved - discard_char through get_char, raw next() in eat(), xml's reference first state, tag-emitting "
+                     "EOF arms, an EOF loop that continues after Script; Inst/InstTermX.v on the regenerated xml table: "
+                     "C04_xml_tokenizer_run_terminates / _end_terminates / C04_xml_driver_terminates); the xml no-panic theorem is not "
+                     "done. Not covered: the default mode with bulk reads over "
                      "the chunked queue (tied to the reference run by BulkSim only for regular runs). Tree builders, stack depth and "
                      "time are covered by the harness only (panic/abort/hang watch, queue-empty and single-EOF oracles, deep nesting).",
                 note=TOK_NOTE, tech="reflective Coq checks (EOF rank, char-ref states) + Coq termination proof of the tokenizer interpreter with explicit fuel bound (potential function, rank check on the regenerated table) + totality oracle incl. pathological inputs"),
